@@ -140,6 +140,7 @@ reg('C02', ['u_nfa', 'u_sub', 'u_mp', 'u_elim', 'u_glue', 'u_lang', 'u_mini', 'u
      'PROVED at spec level (theorem_thompson_language, unit U-lang, re-checked on every run): for every AST a (regex_syntax::ast::Ast), registry reg with th_fits, class predicate cls that agrees with the leaf meaning lf on (any extension of) the resulting registry, and lf compatible with the registry\'s ComparableAst equality: thompson(a, reg).0 accepts w (a run from start to end over epsilon and class edges, units/u_lang/lang_path.rs) iff re_lang(a, lf, w), where re_lang is the textbook meaning of the AST (Empty, leaves = one character, Concat, Alternation, ?, *, +, {c} = c copies, {c,} = c copies then any number, {l,m} = l copies then m-l optional copies, Group); every Thompson automaton is `nice` (well formed, end state without outgoing edges)',
      'PROVED at spec level (unit U-glue, glue_lang.rs, re-checked on every run): theorem_single_pattern_language: for the Nfa returned by try_from_ast for an AST and every elim_ok automaton d0 of it (= what From<Nfa> hands the minimizer; every lookahead automaton), every non-empty word w and token type tid: d_acc(d0, cls, w, tid) <==> re_lang(ast, lf, w) and tid is the pattern\'s token type. theorem_union_language: for the union m built by try_from_patterns (mp_built) and every elim_ok automaton d0 of it (= what From<MultiPatternNfa> hands the minimizer): d_acc(d0, cls, w, tid) <==> some pattern i of the mode has token type tid and re_lang(spec_parse(pattern i), lf, w). Proved through the bridge between runs of the Thompson view and the closure-folded runs of the graph view for renumbered NFAs (shifted_view, lemma_n_accepts) and lemma_mp_lands (landing in the union = landing in one pattern NFA)',
      'PROVED at spec level, END TO END THROUGH THE MINIMIZER (glue_lang.rs, re-checked on every run): theorem_single_pattern_minimized: for the automaton dm that From<Nfa> returns (min_of(d0, dm): contract of Minimizer::minimize, proved in U-mini) d_acc(dm, cls, w, tid) <==> re_lang(ast, lf, w) and tid is the pattern\'s token type; theorem_union_minimized: for the automaton d that CompiledDfa::try_from_patterns returns (states and end states of the minimized union, lookahead map filled in afterwards) d_acc(d, cls, w, tid) <==> some pattern of the mode with token type tid matches w; via theorem_minimize_language / theorem_quotient_language (units/u_mini/mini_spec.rs)',
+     'PROVED (the two remaining clauses of the property, units U-lang / U-build, spec level): theorem_scanner_classes_registered: every class id on a transition of a mode automaton or of one of its lookahead automata is an index into the final registry of the scanner (the one stored in the scanner and handed to create_match_char_class; ScannerImpl::try_from ensures s.character_classes.view() == final_reg(modes)), via theorem_thompson_classes_registered and its preservation by shift, union, epsilon elimination and quotient; theorem_scanner_empty_not_accepted: no mode automaton and no lookahead automaton accepts the empty string (state 0 is never entered: in the union nothing leads to state 0, in a Thompson automaton no edge leads to the start state - theorem_thompson_start_fresh; group 0 of the quotient holds state 0 and groups are acceptance-homogeneous)',
      'NOT proved / outside: the meaning of leaves lf (class layer, C08) and its agreement with the registry-built class predicate (CharacterClassRegistry::create_match_char_class, not under contract) are hypotheses of the theorems (cls_ok, lf_respects); what regex-syntax\'s parser returns for a pattern text (spec_parse) is uninterpreted',
      'PROVED (unit U-build): CompiledScannerMode::try_from_scanner_mode and both impl TryFrom<..> for ScannerImpl: the scanner has one compiled mode per mode of the configuration, in order, each being dfa_built (the postcondition of CompiledDfa::try_from_patterns) for its patterns on the registry left by the modes before it (mode_reg), name and transitions carried over, current mode 0, and scanner_wf; theorem_mode_language: mode k accepts (w, tid) iff some pattern of mode k with token type tid matches w',
      'NOT under contract (bounded stand-in only, see coverage.bounded_stand_in): CharacterClassRegistry::create_match_char_class (trusted contract: total deterministic closure; that it agrees with the leaf meaning is hypothesis cls_ok), the regex-syntax parser, ScannerBuilder / Scanner::try_new above ScannerImpl::try_from',
